@@ -1051,7 +1051,15 @@ func (bc *Blockchain) resetStateInternal(height uint32, stage stateChangeStage) 
 			keysCnt             = new(int)
 		)
 		for i := height + 1; i <= currHeight; i++ {
-			_, err := upperCache.DeleteBlock(bc.GetHeaderHash(i))
+			// Drop the block, but keep its header: header hashes are restored from
+			// headers on restart until the stage that resets them is persisted.
+			hdr, err := bc.GetHeader(bc.GetHeaderHash(i))
+			if err == nil {
+				_, err = upperCache.DeleteBlock(hdr.Hash())
+			}
+			if err == nil {
+				err = upperCache.StoreHeader(hdr)
+			}
 			if err != nil {
 				return fmt.Errorf("error while removing block %d: %w", i, err)
 			}
